@@ -13,7 +13,7 @@ synth_circuit_from_stabilizers - qiskit object manipulation, no contract within 
 by evaluating the top-level contract on complete domains for n <= 4 and on seeded domains for n = 5, 6 (BOUNDED).
 """
 from __future__ import annotations
-import time
+import time, random
 from .. import core, e2e, adapt
 from ..core import GROUND, BOUNDED, PROVED, REFUTED
 from ..oracle import pauli as P, graphs as G, docs
@@ -140,9 +140,37 @@ def run(ctx: core.Ctx):
             ctx.record(fam, PROVED if ok else REFUTED, {"n": rp["n"], "connectivity": rp["connectivity"], "paulis": rp["paulis"]} if fam.total < 2 else None)
             if not ok:
                 ctx.violate(fam, key, what, rp)
+    # the table's OWN graph of every entry, requested in graph form (generators K_v = X_v Z_N(v) in vertex order): the input for which the layer search returns the
+    # identity and the delivered circuit is the table circuit itself, whose generators may carry native minus signs.  Every entry x every single-minus sign vector, all-minus
+    # (thorough: all 2^n sign vectors for n<=5, 16 seeded more for n=6)
+    import htstabilizer.circuit_lookup as cl
+    tj = []
+    rnd = random.Random(ctx.seed + 101)
+    for n, conn in docs.ADVERTISED:
+        for k in range(docs.CLASS_COUNT[n]):
+            gid = cl.stabilizer_circuit_lookup(n, conn, k).graph_id
+            rows = [(x, z) for x, z, _ in G.graph_state_gens(n, G.adj_from_id(n, gid))]
+            svs = [tuple(int(i == j) for i in range(n)) for j in range(n)] + [(1,) * n]
+            if not ctx.quick:
+                svs = e2e.sign_vectors(n) if n <= 5 else svs + [tuple(rnd.randrange(2) for _ in range(n)) for _ in range(16)]
+            elif n <= 4:
+                svs = e2e.sign_vectors(n)
+            for sv in svs:
+                tj.append((n, conn, e2e.with_signs(rows, sv), ("matrix", "strings")[len(tj) % 2], None, ("prep",)))
+    famt = None
+    for r in core.pmap(e2e.eval_state, tj):
+        for fam_name, ok, key, what, rp in r:
+            if not fam_name.startswith("C01."):
+                continue
+            famt = ctx.family(fam_name + ".table_graph_in_graph_form", core.GROUND, "native+oracle", "the representative graph of every table entry requested in graph form (identity layer)")
+            famt.exhaustive = True
+            famt.domain = "all 7326 (n, connectivity, class id) x every single-minus sign vector and all-minus (all sign vectors for n<=4; thorough: all for n<=5, +16 seeded for n=6)"
+            ctx.record(famt, PROVED if ok else REFUTED, {"n": rp["n"], "connectivity": rp["connectivity"], "paulis": rp["paulis"]} if famt.total < 2 else None)
+            if not ok:
+                ctx.violate(famt, key, what, rp)
     ctx.extra["domains"] = desc
     ctx.extra["ground_time_s"] = round(time.time() - t, 2)
-    ctx.extra["cases"] = len(jobs) + len(nj)
+    ctx.extra["cases"] = len(jobs) + len(nj) + len(tj)
     ctx.trust("oracle signed tableau simulator (hv/oracle/pauli.py), group enumeration count-checked against prod(2^k+1)",
               "Q3: qiskit QuantumCircuit gate methods / compose / inverse keep the instruction semantics read back through the instruction list")
     ctx.assume("n<=3 (and n=4 in the thorough tier): exhaustive over all stabilizer groups and all sign vectors; generating sets exhaustive only for n=2",
